@@ -117,7 +117,7 @@ type apiRec struct {
 type truthObj struct {
 	ID       int
 	Name     string
-	Kind     string // func genfunc var type iface gentype constraint constid uint ufloat ustring builtin
+	Kind     string // func genfunc var type iface gentype constraint constid uint urune ufloat ustring builtin
 	Num, Den *big.Int
 	Str      string
 	Since    int
@@ -286,6 +286,9 @@ func (l *bindLoader) truth(path string, api map[string]map[string]*apiEntry, pla
 				case constant.Int:
 					if n, d, ok := ratOf(o.Val()); ok {
 						t.Kind, t.Num, t.Den = "uint", n, d
+						if b.Kind() == types.UntypedRune {
+							t.Kind = "urune" // same values, but the default type is rune
+						}
 					}
 				case constant.Float:
 					if n, d, ok := ratOf(o.Val()); ok {
@@ -1383,6 +1386,8 @@ func (t *truthObj) coqKind() string {
 		return "KBuiltin"
 	case "uint":
 		return fmt.Sprintf("(KUInt %s)", bindZ(t.Num))
+	case "urune":
+		return fmt.Sprintf("(KURune %s)", bindZ(t.Num))
 	case "ufloat":
 		return fmt.Sprintf("(KUFloat %s %s)", bindZ(t.Num), bindZ(t.Den))
 	case "ustring":
